@@ -27,6 +27,9 @@ CFG = dict(
         "Tab.table_poly_wellformed", "Tab.table_cell_volume_corners_ff", "Tab.table_cell_volume_corners_ft",
         "Tab.table_cell_volume_corners_tf", "Tab.table_cell_volume_corners_tt", "Tab.table_cell_volume_positive_corner",
         "Tab.table_det_codes", "Tab.table_pos_codes", "cell_volume_nonneg",
+        "Tab.table_poly_closed_ff", "Tab.table_poly_closed_ft", "Tab.table_poly_closed_tf", "Tab.table_poly_closed_tt", "poly_closed",
+        "Tab.table_low_caps_planar", "low_cap_volume_zero", "poly_volume_eq_solid", "cell_volume_pos",
+        "Tab.table_cap_canonical", "Tab.table_cap_canon_empty",
         # exactly the cells the real marcher visits
         "marched_perm_box", "marched_closed",
     ],
